@@ -172,7 +172,10 @@ def run(sc):
                     data=list(data), tl=tl, ff=ff)
         else:
             sim.log({"ev": "ptx", "node": s["node"], "id": s["id"], "data": list(s["data"]), "fd": bool(s.get("fd", False)), "ext": True})
-            sim.inject(n, s["id"], s["data"], fd=s.get("fd", False))
+            if "flags" in s:
+                sim.inject(n, s["id"], s["data"], fd=s.get("fd", False), via_listener=True, flags=s["flags"])
+            else:
+                sim.inject(n, s["id"], s["data"], fd=s.get("fd", False))
     sim.run(sc.get("dur", 2_000_000))
     sim.log({"ev": "end", "node": sc["nodes"][0]["name"]})
     expect = {"all": False, "idle": False, "slack": 0, "dm": True,
